@@ -204,9 +204,88 @@ def run(rep: Report, tier: str) -> None:
     from sa.checks.c32 import mapper_partial_operations
     mapper_partial_operations(P, rep, "R18.8")
     # ---- R18.7: the fetch formats each TIMESTAMP column by ITS OWN content (CSV stores every Date as TIMESTAMP, DataFrames only those with a time) ----
-    rep.rule("R18.7", "result fetch: a TIMESTAMP column is rendered with a time of day iff that column holds one (decided per column, evaluated on a model table)")
+    rep.rule("R18.7", "result fetch: a TIMESTAMP column is rendered with a time of day iff that column holds one - sub-second fractions included (decided per column, the probe's row "
+                      "predicate evaluated on a model table)")
+    fetch_time_format(P, rep, "R18.7")
+    # ---- R18.9: a column that names a declared component is never taken for an SDMX service column ----
+    rep.rule("R18.9", "handle_sdmx_columns evaluated over header x structure combinations: every column that names a declared component is kept (whatever its case), and the service "
+                      "columns STRUCTURE / STRUCTURE_ID / ACTION / leading DATAFLOW that the structure does not declare are left out - the DataFrame loader takes declared columns by name")
+    from sa.e6 import Unmodelled as _U18
+    fh = P.func("vtlengine.duckdb_transpiler.io._validation.handle_sdmx_columns")
+    n9 = 0
+    bad9: Dict[str, str] = {}
+    for comp_names in (["Id_1", "Me_1"], ["Id_1", "action"], ["Id_1", "Action"], ["Id_1", "ACTION"], ["Structure", "Me_1"], ["Id_1", "structure_id"], ["STRUCTURE", "STRUCTURE_ID"],
+                       ["dataflow", "Me_1"], ["DATAFLOW", "Me_1"], ["Id_1", "Dataflow"]):
+        for extra in ([], ["ACTION"], ["STRUCTURE", "STRUCTURE_ID"], ["DATAFLOW"], ["DATAFLOW", "STRUCTURE", "STRUCTURE_ID", "ACTION"]):
+            cols = [e for e in extra if e == "DATAFLOW" and e not in comp_names] + comp_names + [e for e in extra if e != "DATAFLOW" and e not in comp_names]
+            comps = {c_: ExternalObj({"name": c_}) for c_ in comp_names}
+            try:
+                kept = list(Interp(P, max_steps=4000).call(fh, {"columns": list(cols), "components": comps}))
+            except Raised as r:
+                kept = [f"<raises {getattr(r.exc, 'code', None) or getattr(r.exc, 'kind', '?')}>"]
+            except _U18 as e:
+                raise AnalysisError(f"R18.9: handle_sdmx_columns outside the evaluator's language: {e}")
+            n9 += 1
+            want = [c_ for c_ in cols if c_ in comp_names or c_ not in ("STRUCTURE", "STRUCTURE_ID", "ACTION", "DATAFLOW")]
+            if n9 <= 4 or kept != want:
+                rep.instance("R18.9", f"sdmx-columns/{'+'.join(cols)}", nontrivial=True, sample={"header": cols, "components": comp_names, "kept": kept})
+            if kept != want:
+                lost = [c_ for c_ in comp_names if c_ not in kept]
+                k9 = "declared-column-dropped" if lost else "service-column-kept"
+                bad9.setdefault(k9, f"header {cols} for a structure with the components {comp_names}: kept {kept}, expected {want}" + (f" - the declared component(s) {lost} are treated as SDMX service "
+                                f"columns: the CSV / Parquet loaders then fill them with NULL or report them missing, while the same table given as a DataFrame keeps the values" if lost else ""))
+    for k9, text in bad9.items():
+        rep.add(Finding("R18.9", f"R18.9/{k9}", fh.module.rel, fh.node.lineno, fh.qualname, text))
+    rep.floor("R18.9 header/structure combinations", n9, 40)
+    # ---- R18.10: the table column types and the cast targets of the INSERT come from the same overrides ----
+    rep.rule("R18.10", "in every loader, the column types of CREATE TABLE (build_create_table_sql) and the cast targets of the INSERT's select list are built from the same type overrides: "
+                       "a file's physical types are source types, never cast targets")
+    n10 = 0
+    for f in P.iter_functions():
+        if not f.qualname.startswith("vtlengine.duckdb_transpiler.io."):
+            continue
+        bound: Dict[str, List[Tuple[ast.Call, Optional[ast.AST], str]]] = {"create": [], "select": []}
+        for c in walk_no_nested(f.node):
+            if not isinstance(c, ast.Call):
+                continue
+            for t in P.resolve_call(f, c):
+                try:
+                    callee = P.func(t)
+                except KeyError:
+                    continue
+                if "type_overrides" not in callee.params or callee.qualname == f.qualname:
+                    continue
+                cps = [x for x in callee.params if x not in ("self", "cls")]
+                i = cps.index("type_overrides")
+                arg = next((k.value for k in c.keywords if k.arg == "type_overrides"), c.args[i] if i < len(c.args) else None)
+                kind = "create" if "create_table" in callee.name else "select"
+                bound[kind].append((c, arg, callee.name))
+        if not bound["create"] or not bound["select"]:
+            continue
+        cre = {src(a) if a is not None else None for _c, a, _n in bound["create"]}
+        for c, a, nm in bound["select"]:
+            n10 += 1
+            rep.instance("R18.10", f"{f.qualname}/{nm}", nontrivial=True, sample={"loader": f.qualname, "create_table_overrides": sorted(map(str, cre)), "select_overrides": src(a) if a is not None else None})
+            if (src(a) if a is not None else None) not in cre:
+                rep.add(Finding("R18.10", f"R18.10/{f.qualname}/{nm}", f.module.rel, c.lineno, f.qualname,
+                                f"{nm}() casts to the types `{src(a) if a is not None else None}` while the table was created with the overrides {sorted(map(str, cre))}: the values are converted to a type "
+                                f"the table does not have and then again implicitly on INSERT (a DOUBLE converted directly instead of through its shortest text, a Date guard applied to a rendering)"))
+    rep.floor("R18.10 loaders with CREATE TABLE and a cast select list", n10, 1)
+    rep.assumptions = ["a CSV value and a string-typed DataFrame/Parquet value with the same text must meet the same rejecting guards",
+                       "guards are recognised by error(), regexp_matches and FLOOR/TRUNC integrality tests in the emitted SQL"]
+
+
+def fetch_time_format(P: Program, rep: Report, rule: str) -> None:
+    """_build_dataset_fetch_select evaluated against a model connection whose probe answers are computed from model rows.  Shared with C19:
+    an accepted Date value is returned as the instant that was loaded."""
+    from sa.e6 import Unmodelled as _Unm
     fs = P.func("vtlengine.duckdb_transpiler.io._execution._build_dataset_fetch_select")
-    has_time = {"D_time": True, "D_date": False}
+    import datetime as _dt
+    from sa import sqlconc as _sc, sqlexpr as _se
+    # the model table: D_frac holds a time of day only in the sub-second fraction of one value, D_hm an ordinary time, D_date midnights only
+    rows = {"D_frac": [_dt.datetime(2020, 1, 5, 0, 0, 0, 250000), _dt.datetime(2020, 1, 6), None], "D_hm": [_dt.datetime(2020, 1, 5, 13, 30), _dt.datetime(2020, 1, 6), None],
+            "D_date": [_dt.datetime(2020, 1, 5), _dt.datetime(2020, 1, 6), None]}
+    has_time = {c_: any(v is not None and (v.hour, v.minute, v.second, v.microsecond) != (0, 0, 0, 0) for v in vs) for c_, vs in rows.items()}
 
     class _Rel:
         def __init__(self, description: Any = None, row: Any = None) -> None:
@@ -225,8 +304,8 @@ def run(rep: Report, tier: str) -> None:
         def execute(self, q: str, *a: Any) -> "_Rel":
             self.queries.append(q)
             if "LIMIT 0" in q.upper():
-                return _Rel(description=[("Id_1", "BIGINT"), ("D_time", "TIMESTAMP"), ("D_date", "TIMESTAMP")])
-            # a probe: one answer per top-level select item = does any column it tests for a time part hold one?
+                return _Rel(description=[("Id_1", "BIGINT")] + [(c_, "TIMESTAMP") for c_ in rows])
+            # a probe: one answer per top-level select item, each `EXISTS (SELECT … FROM <table> WHERE <row predicate>)`; the predicate is evaluated on the model rows
             body = q.strip()[len("SELECT"):] if q.strip().upper().startswith("SELECT") else q
             items, depth, cur = [], 0, ""
             for ch in body:
@@ -240,22 +319,36 @@ def run(rep: Report, tier: str) -> None:
             items.append(cur)
             ans = []
             for it_ in items:
-                cols = set(re.findall(r'(?:hour|minute|second|microsecond)\(\s*"([^"]+)"', it_, re.I))
-                if not cols:
-                    raise AnalysisError(f"R18.7: probe query not understood by the model: `{q[:100]}`")
-                ans.append(any(has_time.get(c_, False) for c_ in cols))
+                m_ = re.match(r'\s*EXISTS\s*\(\s*SELECT\s+.+?\s+FROM\s+"[^"]+"\s+WHERE\s+(.*)\)\s*(?:AS\s+"[^"]+")?\s*$', it_, re.I | re.S)
+                if not m_:
+                    raise AnalysisError(f"{rule}: probe query not understood by the model: `{q[:100]}`")
+                try:
+                    pred = _se.parse(m_.group(1))
+                except _se.ParseError as ex:
+                    raise AnalysisError(f"{rule}: probe predicate outside the SQL evaluator's language: {ex} [{m_.group(1)[:100]}]")
+                cols = [c_ for c_ in rows if f'"{c_}"' in m_.group(1)]
+                hit = False
+                for i_ in range(3):
+                    try:
+                        if _sc.ev(pred, {k_: rows[c_][i_] for c_ in cols for k_ in (c_, f'"{c_}"')}, {}) is True:
+                            hit = True
+                    except (_sc.SqlError, _se.ParseError, AttributeError, TypeError) as ex:
+                        if all(rows[c_][i_] is None for c_ in cols):
+                            continue  # SQL NULL propagation on the all-NULL row: the row does not satisfy the predicate
+                        raise AnalysisError(f"{rule}: probe predicate not evaluable on the model row: {ex} [{m_.group(1)[:100]}]")
+                ans.append(hit)
             return _Rel(row=tuple(ans))
-    dsm = ExternalObj({"components": {"Id_1": None, "D_time": None, "D_date": None}, "name": "DS_r"})
+    dsm = ExternalObj({"components": {"Id_1": None, **{c_: None for c_ in rows}}, "name": "DS_r"})
     try:
         sel = Interp(P).call(fs, {"conn": _Conn(), "result_name": "DS_r", "ds": dsm})
     except (_Unm, Raised) as e:
-        raise AnalysisError(f"R18.7: _build_dataset_fetch_select outside the evaluator's language: {e}")
+        raise AnalysisError(f"{rule}: _build_dataset_fetch_select outside the evaluator's language: {e}")
     sel = " ".join(str(sel).split())
-    rep.instance("R18.7", "per-column-time-format", nontrivial=True, sample={"select": sel[:260]})
+    rep.instance(rule, "per-column-time-format", nontrivial=True, sample={"select": sel[:260]})
     # the select item of a column = the text that ends with `AS "<col>"` and starts after the previous item's alias (items are in component order)
     ends = {c_: sel.find(f'AS "{c_}"') for c_ in has_time}
     if any(v < 0 for v in ends.values()):
-        raise AnalysisError(f"R18.7: the fetch SELECT does not alias the TIMESTAMP columns by name: `{sel[:120]}`")
+        raise AnalysisError(f"{rule}: the fetch SELECT does not alias the TIMESTAMP columns by name: `{sel[:120]}`")
     order = sorted(ends, key=lambda k: ends[k])
     seg: Dict[str, str] = {}
     prev_end = 0
@@ -266,9 +359,8 @@ def run(rep: Report, tier: str) -> None:
         txt = seg[c_]
         got_t = "%H" in txt
         if not txt or got_t != want_t:
-            rep.add(Finding("R18.7", f"R18.7/per-column-time-format/{c_}", fs.module.rel, fs.node.lineno, fs.qualname,
-                            f"a result with two TIMESTAMP columns, D_time holding a time of day and D_date only midnights: {c_} is rendered {'with' if got_t else 'without'} a time part "
-                            f"(`{txt[:90]}`); each column must be decided by its own content - the CSV loader stores every Date column as TIMESTAMP, so the same table given as CSV and "
-                            f"as a DataFrame would otherwise come back as `2020-05-05T00:00:00` and `2020-05-05`"))
-    rep.assumptions = ["a CSV value and a string-typed DataFrame/Parquet value with the same text must meet the same rejecting guards",
-                       "guards are recognised by error(), regexp_matches and FLOOR/TRUNC integrality tests in the emitted SQL"]
+            rep.add(Finding(rule, f"{rule}/per-column-time-format/{c_}", fs.module.rel, fs.node.lineno, fs.qualname,
+                            f"a result with three TIMESTAMP columns, D_hm holding a time of day, D_frac a value 00:00:00.25 (a time only in the sub-second fraction) and D_date only midnights: "
+                            f"{c_} is rendered {'with' if got_t else 'without'} a time part (`{txt[:90]}`); each column must be decided by its own content - a dropped fraction is a different "
+                            f"instant, and the CSV loader stores every Date column as TIMESTAMP, so the same table given as CSV and as a DataFrame would otherwise come back as "
+                            f"`2020-05-05T00:00:00` and `2020-05-05`"))
